@@ -72,7 +72,7 @@ def layout_before(text, off):
         return 'LF'
     if c == '\r':
         return 'CR'
-    if c in '  ':
+    if c in '\u2028\u2029':
         return 'LSPS'
     if text[i - 2:i] == '*/':
         return 'comment'
@@ -81,7 +81,7 @@ def layout_before(text, off):
 
 def terminators_before(text, off):
     before = text[:off]
-    if ' ' in before or ' ' in before:
+    if '\u2028' in before or '\u2029' in before:
         return 'LSPS'
     if '\r\n' in before:
         return 'CRLF'
